@@ -366,7 +366,17 @@ func TestC18Pings(t *testing.T) {
 				}
 				t0 := time.Now()
 				mc := ep.Last()
-				time.Sleep(span)
+				if idx%2 == 1 && f > 0 {
+					// the server keeps talking, with gaps shorter than PingFreq: the keep-alive must not depend on silence
+					gap := f / 3
+					for el := time.Duration(0); el+gap <= span; el += gap {
+						time.Sleep(gap)
+						mc.SendLine(":srv NOTICE me :chatter")
+					}
+					time.Sleep(span - (span/gap)*gap)
+				} else {
+					time.Sleep(span)
+				}
 				synctest.Wait()
 				ws := mc.Writes()
 				ls := mc.Lines()
@@ -413,7 +423,7 @@ func TestC18Pings(t *testing.T) {
 			if bad != "" {
 				e.R.Violate(rig.Violation{Sig: "c18|client-pings", Detail: bad, Case: fmt.Sprintf("pings:%d", idx)})
 			}
-			e.R.Class(fmt.Sprintf("pingfreq=%v|span=%v", f, span))
+			e.R.Class(fmt.Sprintf("pingfreq=%v|span=%v|server-chatter=%v", f, span, idx%2 == 1 && f > 0))
 			e.R.Count("client_pings_observed", int64(len(stamps)))
 			if idx%5 == 0 {
 				e.R.Sample(map[string]interface{}{"pingfreq": f.String(), "virtual_span": span.String(), "pings": len(stamps), "first": fmt.Sprint(stamps[:min(3, len(stamps))])})
